@@ -32,14 +32,14 @@ func (p *Program) ConstVal(pkg, name string) (int64, bool) {
 }
 
 var coreClass = map[string]string{
-	"go.uber.org/zap/zapcore.nopCore":                   "nop",
-	"go.uber.org/zap/zapcore.ioCore":                    "leaf",
-	"go.uber.org/zap/zaptest/observer.contextObserver":  "leaf",
-	"go.uber.org/zap/zapcore.levelFilterCore":           "filter",
-	"go.uber.org/zap/zapcore.sampler":                   "filter",
-	"go.uber.org/zap/zapcore.multiCore":                 "tee",
-	"go.uber.org/zap/zapcore.lazyWithCore":              "passthrough",
-	"go.uber.org/zap/zapcore.hooked":                    "hookwrapper",
+	"go.uber.org/zap/zapcore.nopCore":                  "nop",
+	"go.uber.org/zap/zapcore.ioCore":                   "leaf",
+	"go.uber.org/zap/zaptest/observer.contextObserver": "leaf",
+	"go.uber.org/zap/zapcore.levelFilterCore":          "filter",
+	"go.uber.org/zap/zapcore.sampler":                  "filter",
+	"go.uber.org/zap/zapcore.multiCore":                "tee",
+	"go.uber.org/zap/zapcore.lazyWithCore":             "passthrough",
+	"go.uber.org/zap/zapcore.hooked":                   "hookwrapper",
 }
 
 var reEnabledEntLevel = regexp.MustCompile(`^Enabled\(.*, (ent|e)\.Level\)$`)
